@@ -124,7 +124,11 @@ fn replay_explore<S: Sut>(uni: &Universe, hist: &[Op], at: &str, alpha: Alphabet
 
 fn replay_typed<P: PType>(rp: &Value) -> Vec<Viol> {
     let spec = &rp["spec"];
-    let embed = if spec["embed"].as_str() == Some("lo") { Embed::Lo } else { Embed::Hi };
+    let embed = match spec["embed"].as_str() {
+        Some("lo") => Embed::Lo,
+        Some("mid") => Embed::Mid,
+        _ => Embed::Hi,
+    };
     let uni = Universe::new(spec["universe"].as_str().unwrap_or("U2"), embed, P::WIDTH);
     let hist: Vec<Op> = rp["history"].as_array().map(|a| a.iter().map(op_from_json).collect()).unwrap_or_default();
     let at = rp["at"].as_str().unwrap_or("transition");
